@@ -12,7 +12,7 @@ from fractions import Fraction
 import z3
 
 from .engine import EXP, LOG
-from .values import (UNDEF, MaybeUnbound, PathDead, SBoundLib, SClass, SEnumMember, SExcClass, SFunc, SIdx,
+from .values import (SArr, UNDEF, MaybeUnbound, PathDead, SBoundLib, SClass, SEnumMember, SExcClass, SFunc, SIdx,
                      SLib, SObj, SOpaque, SSel, SSeq, SStr, SVec, SymRaise, Undefined, Unsupported,
                      is_num, is_z3, to_fraction, to_real, to_z3)
 
@@ -913,9 +913,11 @@ def _np_array(interp, args, kwargs, node, frame):
     use(interp, "np.like")
     v = args[0]
     if isinstance(v, (list, tuple)):
-        return list(v)
+        return SArr(v)
     if isinstance(v, SVec):
         return v
+    if is_z3(v) or is_num(v):
+        return v  # 0-d array
     raise Unsupported(f"np.array of {type(v).__name__}", node)
 
 
@@ -926,7 +928,7 @@ def _np_ones_like(interp, args, kwargs, node, frame):
     if isinstance(v, SVec):
         return SVec(1, _len(interp, [v], {}, node, frame))
     if isinstance(v, list):
-        return [1 for _ in v]
+        return SArr(1 for _ in v)
     raise Unsupported("ones_like of a non-vector", node)
 
 
@@ -937,7 +939,7 @@ def _np_zeros_like(interp, args, kwargs, node, frame):
     if isinstance(v, SVec):
         return SVec(0, _len(interp, [v], {}, node, frame))
     if isinstance(v, list):
-        return [0 for _ in v]
+        return SArr(0 for _ in v)
     raise Unsupported("zeros_like of a non-vector", node)
 
 
